@@ -139,7 +139,12 @@ def c01(ctx):
             with open(src, "wb") as f:
                 f.write(sb)
             detail = {"chunker": cn, "compression": pn, "source": sn, "source_len": len(sb), "input": inp}
-            cmd = [bita, "compress", "--hash-length", str([64, 8, 31, 4][i % 4]), "--buffered-chunks", str([1, 2, 8][i % 3])] + ca + pa
+            # assumption A1: a 4-byte hash only where the source has few chunks (16 000 chunks of the
+            # large source collide on 32 bits with a probability of several percent - and do)
+            hl = [64, 8, 31, 4][i % 4]
+            if hl == 4 and len(sb) > 5000:
+                hl = 8
+            cmd = [bita, "compress", "--hash-length", str(hl), "--buffered-chunks", str([1, 2, 8][i % 3])] + ca + pa
             if inp == "file":
                 r = sh(cmd + ["-i", src, arc])
             else:
